@@ -14,7 +14,7 @@ NONVALUE = lambda v: True
 PLAN = {
     "C01": dict(
         suites=["C01"], mc=["MCRound"], gen=["GenP8", "GenShapes"], t3_tests=["add", "sub", "mul", "div", "neg"],
-        rule="driver: all 2^16 P8E0 pairs x 4 ops; for P16E1/P32E2 specials x lattice, lattice pairs with directed "
+        rule="screening: 400 000 (thorough 20 000 000) operand pairs per operator for P16E1 and P32E2 compared with the f64 and quire routes, disagreements logged and judged; driver: all 2^16 P8E0 pairs x 4 ops; for P16E1/P32E2 specials x lattice, lattice pairs with directed "
              "partners (cancellation, half-ulp ties, nearby scales), uniform random pairs, 8-register dataflow programs; "
              "distinct = distinct (type, op, operands); non-trivial = no operand is zero or NaR",
     ),
@@ -25,10 +25,10 @@ PLAN = {
     "C03": dict(suites=["C03"], mc=["MCConv"], gen=["GenConv"],
         rule="driver: every P8E0 and P16E1 pattern, P32E2 lattice + random; to_f32/to_f64 (3 spellings), f64 and Display/FromStr round trips"),
     "C05": dict(suites=["C05"], mc=["MCRound"], gen=["GenFma"],
-        rule="driver: triples (a, b, c) with c aimed at -round(a*b) +- j ulp (cancellation), at half-ulp ties of the product, or free; "
+        rule="screening: 600 000 (30 000 000) triples per operation for P16E1 and P32E2 compared with the quire and f64 routes, disagreements logged and judged; driver: triples (a, b, c) with c aimed at -round(a*b) +- j ulp (cancellation), at half-ulp ties of the product, or free; "
              "all three operations; specials^3; dataflow programs"),
     "C06": dict(suites=["C06"], mc=["MCRound"],
-        rule="driver: every P8E0/P16E1 pattern; P32E2 lattice + random + perfect squares +-1 ulp"),
+        rule="screening: 300 000 (20 000 000) inputs for P16E1 and P32E2 compared with the f64 route, disagreements logged and judged; driver: every P8E0/P16E1 pattern; P32E2 lattice + random + perfect squares +-1 ulp"),
     "C07": dict(suites=["C07"], mc=["MCConv"], gen=["GenConv"],
         rule="driver: all i8/u8/i16/u16 values; for 32/64-bit types powers of two +-3, odd multiples of half-units at the rounding "
              "position, type bounds, the constants in the code +-2, random; to-int: all P8/P16 patterns, P32 lattice + half-integers + bounds"),
@@ -63,7 +63,8 @@ PLAN = {
         rule="driver: PxE1<N> and PxE2<N> for every N in 2..=32: all operand pairs for N <= 6 (quick) / 8 (thorough) and all triples "
              "for N <= 4, lattice pairs/triples with directed partners above; + - * / (operator and assign forms), mul_add, mul_sub, "
              "sub_product, sqrt (PxE2), round, neg; operands and results are the 32-bit left-aligned storage, the spec checks the low "
-             "32-N bits of every result are zero and the N-bit value is the posit-rule rounding"),
+             "32-N bits of every result are zero and the N-bit value is the posit-rule rounding; lone-low-bit products / fused triples for N >= 8; "
+             "screening: 8 000..40 000 (300 000..2 000 000) tuples per operation and width compared with the f64 route, disagreements logged and judged"),
     "C14": dict(suites=["C14"], mc=["MCConv"],
         rule="driver: for every N in 2..=32 and both exponent sizes: generic -> f32/f64/i32/u32/i64/u64/P8/P16/P32/other generic width "
              "(all patterns for N <= 10/12, lattice + random above); f32/f64 -> generic at every rounding boundary of the target +-1 float "
